@@ -311,6 +311,7 @@ fn assemble(rng: &mut Rng, form: &Form, mode64: bool) -> Option<Enc> {
     let idx = rng.usize(nregs);
     let rexw = mode64 && !opsize16 && !form.byte_op && form.sp != S::Short32 && !matches!(form.kind, Rel8 | Rel32) && (form.name == "movsxd" || rng.chance(2, 5)) && !(is_sse && !matches!(form.name, "movd_x_rm" | "movd_rm_x"));
     let mut rex = 0u8;
+    let mut rex_empty = false;
     if form.sp == S::Short32 && mode64 {
         return Option::None;
     }
@@ -434,9 +435,17 @@ fn assemble(rng: &mut Rng, form: &Form, mode64: bool) -> Option<Enc> {
     if rexw {
         rex |= 8;
     }
+    // relative branches: a REX prefix (with or without W) changes nothing on the processor - in 64-bit mode their
+    // operand size is fixed at 64 bits ("rex64 call" is part of the x86-64 TLS call sequence)
+    if mode64 && matches!(form.kind, Rel8 | Rel32) && rng.chance(1, 4) {
+        rex |= *rng.pick(&[8u8, 8, 0, 1, 9, 0xf]);
+        if rex == 0 {
+            rex_empty = true;
+        }
+    }
     // byte registers spl/bpl/sil/dil need an (empty) REX prefix in 64-bit mode; without REX numbers 4-7 are ah/ch/dh/bh
     let force_rex = mode64 && form.byte_op && rng.chance(1, 3);
-    if mode64 && (rex != 0 || force_rex) {
+    if mode64 && (rex != 0 || force_rex || rex_empty) {
         bytes.push(0x40 | rex);
     }
     let opsize = if form.byte_op { 8 } else if opsize16 { 16 } else if rexw { 64 } else { 32 };
@@ -969,6 +978,7 @@ impl C01 {
         for (k, b) in st0.arena.iter().enumerate() {
             il.mem.insert(ARENA_ADDR + k as u64, *b);
         }
+        let il0 = il.clone();
         let end = run_block(&btr, &mut il);
         ctx.eval();
         // hazard tags single out operand constellations that deserve their own signature
@@ -1095,6 +1105,51 @@ impl C01 {
         if !diffs.is_empty() {
             ctx.violation(&finalize(format!("{}:diff={}", sig_base, diffs.join("+"))), json!({"input": state_json(&e, &st0), "differences": detail}));
             return;
+        }
+        // ---- the same bytes somewhere else: the processor's behaviour does not depend on where a relative branch
+        // stands, only its targets and the pushed return address move along. The instruction is lifted a second time
+        // 0x7f00_0000_0000 higher (where addresses no longer fit 32 bits) and must do the same thing shifted by that.
+        if mode64 && matches!(e.form.kind, Rel8 | Rel32) {
+            const HIGH: u64 = 0x7f00_0000_0000;
+            if let Ok(Ok(btr2)) = guard(|| Amd64::new().translate_block(&lift_bytes, lift_addr + HIGH, &Options::default())) {
+                let mut il2 = il0.clone();
+                let end2 = run_block(&btr2, &mut il2);
+                ctx.eval();
+                let mut d2: Vec<String> = Vec::new();
+                match end2 {
+                    LiftEnd::Next(p) if p == il_pc.wrapping_add(HIGH) => {}
+                    other => d2.push(format!("next rip: expected 0x{:x} got {:?}", il_pc.wrapping_add(HIGH), other)),
+                }
+                for i in 0..16 {
+                    if il2.get_u64(GPR64[i]) != il.get_u64(GPR64[i]) {
+                        d2.push(format!("{}: 0x{:x?} at the low address, 0x{:x?} at the high one", GPR64[i], il.get_u64(GPR64[i]), il2.get_u64(GPR64[i])));
+                    }
+                }
+                // memory: identical, except that a call pushes a return address that moved along
+                let rsp = il.get_u64("rsp").unwrap_or(0);
+                let word = |m: &std::collections::BTreeMap<u64, u8>, a: u64| -> Option<u64> { (0..8).map(|k| m.get(&(a + k)).map(|b| (*b as u64) << (8 * k))).sum::<Option<u64>>() };
+                let is_call = e.form.name == "call_rel32";
+                for (a, b) in il.mem.iter() {
+                    if is_call && *a >= rsp && *a < rsp + 8 {
+                        continue;
+                    }
+                    if il2.mem.get(a) != Some(b) {
+                        d2.push(format!("[0x{:x}] differs between the two lifts", a));
+                        break;
+                    }
+                }
+                if is_call && word(&il2.mem, rsp) != word(&il.mem, rsp).map(|v| v.wrapping_add(HIGH)) {
+                    d2.push(format!("pushed return address: 0x{:x?} at the low address, 0x{:x?} at the high one", word(&il.mem, rsp), word(&il2.mem, rsp)));
+                }
+                if !d2.is_empty() {
+                    ctx.violation(&format!("{}:lifted_0x7f0000000000_higher_behaves_differently", sig_base), json!({"input": state_json(&e, &st0), "differences": d2}));
+                    return;
+                }
+                ctx.count("amd64.relative_branches_relifted_at_a_high_address");
+            } else {
+                ctx.violation(&format!("{}:not_lifted_0x7f0000000000_higher", sig_base), state_json(&e, &st0));
+                return;
+            }
         }
         let changed = st1.gpr != st0.gpr || st1.xmm != st0.xmm || st1.arena != st0.arena || (st1.rflags ^ st0.rflags) & 0xcc1 != 0 || st1.rip != CODE_ADDR + native_bytes.len() as u64;
         if changed {
